@@ -124,6 +124,19 @@ def handle (line : String) : String :=
     match cnt.toNat?, p.toNat?, b.toNat? with
     | some cnt, some p, some b => errLoop errCfg ⟨p, b, false⟩ cnt 0 ⟨0, 0⟩
     | _, _, _ => "bad-op"
+  | ["errseq", p, bodies] =>
+    match p.toNat?, (bodies.splitOn ",").mapM (·.toNat?) with
+    | some p, some bs =>
+      let rec go (s : ErrState) (k : Nat) : List Nat → String
+        | [] => s!"ok used={s.used} count={s.count} reports={k}"
+        | b :: rest =>
+          match errStep errCfg s (.report ⟨p, b, false⟩) with
+          | .ok s' => go s' (k + 1) rest
+          | .overflow i => s!"overflow {i} at-report {k + 1}"
+          | .underflow => "underflow"
+          | .reject => s!"reject at-report {k + 1}"
+      go ⟨0, 0⟩ 0 bs
+    | _, _ => "bad-op"
   | ["setwarning", name] =>
     match setWarning setWarningNameGuard name libErrorClasses false with
     | .done f => s!"done found={f}"
